@@ -28,6 +28,14 @@
 #include "Tags.hpp"
 #include "StringView.hpp"
 
+// Verification hook (off unless QENTEM_VERIF and QENTEM_VERIF_PARSE_EVENT are defined): the tag scanner reports its
+// state before every token it dispatches, at the end of the text and after dropping unfinished tags.
+#if defined(QENTEM_VERIF) && defined(QENTEM_VERIF_PARSE_EVENT)
+#define QENTEM_VERIF_PARSE_STEP(token) QENTEM_VERIF_PARSE_EVENT(token, tags_cache, parent_storage, storage, loop_tag, is_child)
+#else
+#define QENTEM_VERIF_PARSE_STEP(token)
+#endif
+
 namespace Qentem {
 
 /*
@@ -341,6 +349,8 @@ struct TemplateCore {
         finder.Next();
 
         while ((match = finder.GetMatch()) != 0U) {
+            QENTEM_VERIF_PARSE_STEP(match);
+
             switch (match) {
                 case TagPatterns::LineEndID: {
                     if (is_child && parent_storage.IsNotEmpty()) {
@@ -855,11 +865,15 @@ struct TemplateCore {
             }
         }
 
+        QENTEM_VERIF_PARSE_STEP(0U);
+
         while (parent_storage.Size() != 0) {
             storage = *(parent_storage.Last());
             storage->Drop(SizeT{1});
             parent_storage.Drop(SizeT{1});
         }
+
+        QENTEM_VERIF_PARSE_STEP(~0U);
     }
 
     inline static void checkLoopVariable(const Char_T *content, VariableTag &tag, const LoopTag *loop_tag) noexcept {
